@@ -448,7 +448,12 @@ fn header_values(values: &[String]) -> Vec<HeaderValue> {
         .collect()
 }
 
-fn pairs_to_map(pairs: &[Pair]) -> Vec<(String, String)> {
+fn pairs_to_vec(pairs: &[Pair]) -> Vec<(String, String)> {
+    pairs.iter().map(|p| (p.k.clone(), p.v.clone())).collect()
+}
+
+/// a "query struct": serialises as a map (serde_qs rejects top-level sequences)
+fn pairs_to_map(pairs: &[Pair]) -> std::collections::BTreeMap<String, String> {
     pairs.iter().map(|p| (p.k.clone(), p.v.clone())).collect()
 }
 
@@ -538,7 +543,7 @@ macro_rules! configure {
                 let v: serde_json::Value = serde_json::from_str(s).expect("json text");
                 b.body_json(&v).expect("json body")
             }
-            BodyJob::Form(pairs) => b.body_form(&pairs_to_map(pairs)).expect("form body"),
+            BodyJob::Form(pairs) => b.body_form(&pairs_to_vec(pairs)).expect("form body"),
             BodyJob::Reader(x) => b.body(reader_body(x.0.clone(), false)),
             BodyJob::SizedReader(x) => b.body(reader_body(x.0.clone(), true)),
         };
